@@ -4,6 +4,6 @@
 EXTENDS IsaTrace
 LN == atoi(IOEnv.LINE)
 ASSUME PrintT(<<"DIAG", Diag(Log[LN])>>)
-Init0 == l = 1
-Next0 == UNCHANGED l
+Init0 == vL = 1
+Next0 == UNCHANGED vL
 =============================================================================
